@@ -24,8 +24,21 @@ def wrap(*duts, extra=None):
     return m
 
 
+PRE = [0]      # number of throw-away elaborations before the one that is simulated (set per case)
+
+
+def set_pre(spec):
+    """Cases carry 'pre' in {0,1,2}: the design under test is elaborated that many times *before* the
+    elaboration the simulator uses, so behaviour is also checked on a second/third elaboration of
+    the same instances (simulate-then-synthesise in the other order)."""
+    PRE[0] = int(spec.get("pre", 0)) if isinstance(spec, dict) else 0
+    return PRE[0]
+
+
 def simulate(top, tb):
     """Run the async testbench ``tb(ctx)`` against ``top`` with a clock on ``sync``."""
+    for _ in range(PRE[0]):
+        Fragment.get(top, None)
     sim = Simulator(top)
     sim.add_clock(1e-6)
     sim.add_testbench(tb)
